@@ -816,6 +816,10 @@ structure Tables where
   fams : List Family
   biv : BivTable
   upper : String → String
+  /-- `get_instance("…GaussianMultivariate")` succeeds (the constructor needs no argument). -/
+  gaussNoArg : Bool
+  /-- `get_instance("…VineCopula")` succeeds. -/
+  vineNoArg : Bool
 
 def Model.toDict (T : Tables) : Model → Option V
   | .uni u => u.toDict
@@ -826,31 +830,46 @@ def Model.toDict (T : Tables) : Model → Option V
 
 /-- the entry point a user calls for a dict produced by a model of each kind. -/
 inductive Entry where
-  | univariate | bivariate | multivariate
+  /-- `Univariate.from_dict` (generic: the recorded `type` decides) -/
+  | univariate
+  /-- `Bivariate.from_dict` (generic: `copula_type` decides) -/
+  | bivariate
+  /-- `GaussianMultivariate.from_dict` -/
+  | gaussian
+  /-- `VineCopula.from_dict` -/
+  | vine
+  /-- `Multivariate.from_dict` (generic: the recorded `type` decides) -/
+  | multivariate
   deriving DecidableEq, Repr
 
 def Model.entry : Model → Entry
   | .uni _ | .wrapper _ => .univariate
   | .biv _ => .bivariate
-  | .gauss _ | .vine _ => .multivariate
+  | .gauss _ => .gaussian
+  | .vine _ => .vine
 
-/-- `Multivariate.from_dict`: `get_instance(params['type']).from_dict(params)`. -/
+/-- `Multivariate.from_dict`: `get_instance(params['type']).from_dict(params)` — the class named by
+    `type` is first *instantiated without arguments* (`TypeError`, here `none`, if its constructor
+    requires one), then its `from_dict` is called. -/
 def multivariateFromDict (T : Tables) (d : V) : Option Model :=
   match d with
   | .dict kvs =>
       match lookup kvs "type" with
       | some (.str q) =>
-          if q = gaussQual then (gaussFromDict T.fams d).map Model.gauss
-          else if q = vineQual then (vineFromDict T.fams d).map Model.vine
+          if q = gaussQual then
+            if T.gaussNoArg then (gaussFromDict T.fams d).map Model.gauss else Option.none
+          else if q = vineQual then
+            if T.vineNoArg then (vineFromDict T.fams d).map Model.vine else Option.none
           else Option.none
       | _ => Option.none
   | _ => Option.none
 
-/-- `Univariate.from_dict` / `Bivariate.from_dict` / `Multivariate.from_dict`. -/
 def fromDict (T : Tables) (e : Entry) (d : V) : Option Model :=
   match e with
   | .univariate => (uniFromDict T.fams d).map Model.uni
   | .bivariate => (bivFromDict T.upper T.biv d).map Model.biv
+  | .gaussian => (gaussFromDict T.fams d).map Model.gauss
+  | .vine => (vineFromDict T.fams d).map Model.vine
   | .multivariate => multivariateFromDict T d
 
 /-- observable state of any model. -/
